@@ -32,6 +32,13 @@ pub fn dispatch(id: &str, tier: Tier, replay: Option<&str>) -> i32 {
         let txt = std::fs::read_to_string(path).unwrap_or_else(|e| machinery_error(&format!("cannot read replay file {path}: {e}")));
         let v: serde_json::Value = serde_json::from_str(&txt).unwrap_or_else(|e| machinery_error(&format!("replay file {path} does not parse: {e}")));
         println!("replaying {path}: key={} what={}", v["key"], v["what"]);
+        if v["replay"]["scenario"]["batches_variant"].is_u64() && matches!(id, "C01" | "C03" | "C04") {
+            return match id {
+                "C01" => c06::replay_batch(&v, "C01", &|o, _c, variant| c01::batch_contract(o, &c06::batches(variant))),
+                "C03" => c06::replay_batch(&v, "C03", &|o, c, variant| c03::batch_lifecycle(o, &c06::batches(variant), c)),
+                _ => c06::replay_batch(&v, "C04", &|o, c, variant| c04::batch_isolation(o, c, variant)),
+            };
+        }
         match id {
             "C01" => return hist::replay("C01", &v, &c01::lists(), c01::ContractMonitor::new),
             "C03" => return hist::replay("C03", &v, &c03::lists(), c03::LifeMonitor::new),
